@@ -89,25 +89,25 @@ def reconDecide (c : Cons) (strict : Bool) (shape? : Option (List Nat)) (dim : I
   | some z =>
     if z < 0 then .err .ValueError                       -- argtest.gte("size", size, 0, int)
     else
-      let sz := z.toNat
       match c.lookup dim with
       | none =>                                           -- create constraint
         match shape? with
-        | none => .set (c.put dim sz)
+        | none => .set (c.put dim z.toNat)
         | some sh =>
           if compatible sh c strict then
-            if compatible sh (c.put dim sz) strict then .set (c.put dim sz) else .err .ValueError
+            if compatible sh (c.put dim z.toNat) strict then .set (c.put dim z.toNat)
+            else .err .ValueError
           else .err .RuntimeError
       | some _ =>                                         -- alter constraint
         match shape? with
-        | none => .set (c.put dim sz)
+        | none => .set (c.put dim z.toNat)
         | some sh =>
           if dimensionality c strict ≤ sh.length then
-            match consistent (c.put dim sz) sh.length with
+            match consistent (c.put dim z.toNat) sh.length with
             | some true =>
-              if compatible sh (c.put dim sz) strict then .set (c.put dim sz)
+              if compatible sh (c.put dim z.toNat) strict then .set (c.put dim z.toNat)
               else match pyIdx sh.length dim with
-                | some t => .resize (c.put dim sz) t sz
+                | some t => .resize (c.put dim z.toNat) t z.toNat
                 | none => .err .IndexError
             | some false => .err .RuntimeError
             | none => .err .IndexError
